@@ -193,7 +193,7 @@ impl CaseKind for Case7 {
 fn random_case(r: &R7) -> Option<Case7> {
     use OpKind::*;
     let n = numel(&r.dims);
-    if n > 2000 {
+    if n > 4000 {
         return None;
     }
     let ops = map_ops();
@@ -261,7 +261,7 @@ pub fn campaigns(ctx: &Ctx) -> Stats {
             _ => Case7::F(FwdCase { op: if o1 > o2 { OpKind::Exp } else { OpKind::Sigmoid }, leaves: vec![leaf], force_exact: None }),
         })
     }));
-    let (max_rank, max_size, total) = t.pick((4usize, 6usize, 40000u64), (5, 8, 600000));
+    let (max_rank, max_size, total) = t.pick((4usize, 9usize, 40000u64), (5, 13, 600000));
     let nops = 6 + map_ops().len();
     let strat = move || (prop::collection::vec(1..=max_size, 1..=max_rank), 0..nops, any::<u8>(), -3.0f64..4.0, any::<u64>()).prop_map(|(dims, opi, p, e, vseed)| R7 { dims, opi, p, e: (e * 64.0).round() / 64.0, vseed }).boxed();
     st.merge(ctx.run_prop("random-shapes-and-values", total, strat, random_case));
